@@ -294,6 +294,9 @@ class Gen(object):
             pass
         if all(V.float_ok(v) for v in vals):
             c.append('longdouble')
+            c.append('>f8')                                    # non-native byte order (data read from a file)
+        if all(v.denominator == 1 and -(1 << 31) <= v < (1 << 31) for v in vals):
+            c += ['>i4', '>i8']
         return r.choice(c) if c else None
 
     def shape(self):
@@ -547,6 +550,10 @@ class Gen(object):
             s, nw, nf = fmt
             op['n_int'] = nw - nf - (1 if s else 0)
             op['fmt'] = [s] + ([nw, None] if r.random() < 0.5 else [None, nf])
+            if r.random() < 0.3:
+                # over-determined: both sizes AND an n_int that contradicts them (the sizes win)
+                op['fmt'] = [s, nw, nf]
+                op['n_int'] = op['n_int'] + r.choice([-3, -1, 1, 2, 5])
         elif r.random() < 0.1 and val is not None and 'strings' in self.p.groups:
             s, nw, nf = fmt
             op['dtype'] = 'fxp-%s%d/%d' % ('s' if s else 'u', nw, nf)
@@ -970,6 +977,8 @@ class Gen(object):
                     if 0 <= t - bl <= maxn]
             if aims:
                 n = r.choice(aims)
+        if r.random() < 0.06:
+            n = -r.randint(1, 4)        # a negative count (the pinned code gives 0 / -1 or rejects it)
         return {'op': 'shift', 'slot': self.cands().index(i), 'dir': d, 'n': n}
 
     @staticmethod
@@ -1211,6 +1220,15 @@ class Gen(object):
         op = {'op': 'setitem_from', 'slot': k, 'src': self.cands().index(isrc)}
         if r.random() < 0.3:
             op['via'] = r.choice(['equal', 'equal', 'set_val'])     # dst.equal(src, index=i) / dst.set_val(src, index=i)
+        if len(ssh) == 2 and ssh[0] == 1 and len(sh) == 1 and sh[0] >= ssh[1] and r.random() < 0.6:
+            # a source with a leading unit axis, (1, n), into a selection of shape (n,): NumPy strips the axis
+            n1 = ssh[1]
+            a0 = r.randrange(0, sh[0] - n1 + 1)
+            op['index'] = r.choice([['sl', a0, a0 + n1, None], ['fx', r.sample(range(sh[0]), n1)]])
+            return op
+        if len(ssh) == 2 and ssh[0] == 1 and len(sh) == 2 and sh[1] == ssh[1] and r.random() < 0.5:
+            op['index'] = r.randrange(sh[0])                   # (1, n) into a row of an (m, n) destination
+            return op
         if ssh == sh and sh and r.random() < 0.5:
             # the whole source into the whole destination through an index that selects every element in
             # ANOTHER order (reversed, rotated, permuted): dst[::-1] = src, dst[[2, 0, 1]] = src
@@ -1277,6 +1295,9 @@ class Gen(object):
             op['n_int'] = ni
             op['fmt'] = [f[0] if (f[0] != cur[0] or r.random() < 0.5) else None] + \
                 ([f[1], None] if r.random() < 0.5 else [None, f[2]])
+            if r.random() < 0.3:
+                op['fmt'] = [op['fmt'][0], f[1], f[2]]          # over-determined, with a contradicting n_int
+                op['n_int'] = ni + r.choice([-3, -1, 1, 2, 5])
         elif r.random() < 0.3:
             part = list(f)
             if part[0] == cur[0]:
